@@ -97,21 +97,35 @@ def r1(repo, run):
 
 
 def r2(repo, run):
+    """the lookup directories, evaluated: Builder.get_lookup_dirs(<file>) gives the directory of that file, then the working directory;
+    without a reference file the working directory only; a sub-builder answers with its parent's directories for the same file"""
     g = repo.func('Builder.get_lookup_dirs')
-    ys = [s for s in walk_no_nested(g.node) if isinstance(s, ast.Expr) and isinstance(s.value, ast.Yield)]
-    if len(ys) != 2:
-        raise AnalysisError('get_lookup_dirs: expected two yields')
-    first, second = ys
-    cg = cfg_of(g)
-    f1 = facts_at(cg, [n for n in cg.nodes if n.ast is first][0])
-    ref = g.params()[1]
-    if norm(first.value.value) != 'os.path.dirname(%s)' % ref or ('%s is None' % ref, False) not in f1 or norm(second.value.value) != 'os.getcwd()':
-        run.violation('C06.R2', g, '%s ; %s' % (norm(first), norm(second)), 'lookup directories are not [directory of the including file (if any), then the working directory]')
+    bad = []
+    for ref, want in (('proj/conf/main.yaml', ['proj/conf', 'CWD']), ('main.yaml', ['', 'CWD']), ('/abs/x.yaml', ['/abs', 'CWD']), (None, ['CWD'])):
+        f = FDE(repo)
+        f.generators = True
+        f.extcalls = {'os.getcwd': lambda: 'CWD'}
+        r = fde_guard(lambda: f.call(g, Obj('builder', 'Builder'), ref))
+        got = list(r.ret) if isinstance(r.ret, (list, tuple)) or type(r.ret).__name__ == 'generator' else r.ret
+        if r.raised or got != want:
+            bad.append('get_lookup_dirs(%r) gives %s, expected %s' % (ref, 'an exception: ' + str(r.raised) if r.raised else got, want))
+    if bad:
+        run.violation('C06.R2', g, 'lookup directories', '; '.join(bad[:2]) + ': lookup directories are not [directory of the including file (if any), then the working directory]')
     else:
-        run.ok('C06.R2', g, 'yield os.path.dirname(ref_point) [if ref_point is not None]; yield os.getcwd()')
+        run.ok('C06.R2', g, 'lookup directories: directory of the reference file (if any), then the working directory (4 rows)')
     sb = repo.func('SubBuilder.get_lookup_dirs')
-    if [norm(s) for s in sb.node.body] != ['return self.parent.get_lookup_dirs(%s)' % sb.params()[1]]:
-        run.violation('C06.R2', sb, norm(sb.node.body[-1]), 'sub-builders do not use the lookup order of their parent')
+    asked = []
+
+    def stub(n, recv, a, k):
+        asked.append((getattr(recv, 'name', recv), tuple(a), dict(k)))
+        return 'PARENT-DIRS'
+    f = FDE(repo, stubs={'get_lookup_dirs'}, stub=stub)
+    parent = Obj('parent', 'Builder')
+    r = fde_guard(lambda: f.call(sb, Obj('sub', 'SubBuilder', parent=parent), 'ref.yaml'))
+    if r.raised or r.ret != 'PARENT-DIRS' or [(x[0], x[1]) for x in asked] != [('parent', ('ref.yaml',))]:
+        run.violation('C06.R2', sb, 'SubBuilder.get_lookup_dirs', 'sub-builders do not use the lookup order of their parent (asked: %s, result %r)' % (asked, r.raised or r.ret))
+    else:
+        run.ok('C06.R2', sb, 'SubBuilder.get_lookup_dirs: the parent\'s directories for the same reference file')
     include_table(repo, run)
 
 
@@ -298,10 +312,7 @@ def r6(repo, run):
     if not par:
         raise AnalysisError('PathNode: parent branch not found')
     txt = ' '.join((p.ret.text if p.ret is not None else '') + ' ' + ' '.join(e.callee or '' for e in p.events if e.kind == 'call') for p in par)
-    if "'..'" in txt or any(k in txt for k in ('abspath', '.resolve', '.absolute')):
-        run.ok('C06.R6', fi, 'parent(n) beyond the recorded parents', 'padded with ".." / absolutised')
-    else:
-        run.violation('C06.R6', fi, 'parent(n) branch', 'parent(n) with n beyond the parents of the *recorded* (possibly relative) file name is clamped: the same node denotes different locations depending on whether its file was reached through a relative or an absolute name')
+    # (what parent(n) denotes when n exceeds the parents of the recorded file name is decided by evaluation: unitrules.path_node_tables)
     cwd = [p for p in paths if p.status == 'return' and any(pol and t.endswith("== 'cwd'") for t, pol in p.facts)]
     for p in cwd:
         if 'os.getcwd()' not in (p.ret.text if p.ret is not None else '') and not any(e.kind == 'call' and e.callee == 'os.getcwd' for e in p.events):
